@@ -1,43 +1,26 @@
 import FatVerif.Proofs.Prog
-import FatVerif.Model.Table
-import FatVerif.Model.Slice
 import FatVerif.Model.File
-/-! C18.4 (stamping rules), part 1: which programs read the configured clock.
+/-! C18.4 (stamping rules), part 1: the clock of an API operation.
 
-`NoClock p`: no run of `p` reads the clock (`Op.now` / `Op.today`): the clock counter and its mode are the same
-before and after.  It is the instance `Steps SameClock` of the generic relation framework of `Proofs/Prog.lean`, so it
-composes along `bind`, `tryCatch` and `finallyDrop`; the structural descent below covers everything `File::read` and
-`File::write` call before they reach their one clock read (`Io.lean`, `Slice.lean`, `Table.lean`, the cluster helpers
-of `File.lean`). -/
+The history clock advances once per API operation — in `Dev.resetOp`, at the start of the operation — and never
+inside one: `Op.now` / `Op.today` return `d.clock` and change nothing, and no other primitive step touches the clock.
+So every program sees ONE clock value for its whole run (`run_sameClock`), however many `TimeProvider` calls it makes;
+the number of clock reads is not observable, which is what makes the correspondence robust against refactorings that
+read the clock more or less often. -/
 namespace FatVerif
 
-/-- the clock was not read: same counter, same mode -/
+/-- same clock counter, same clock mode -/
 def SameClock (d d' : Dev) : Prop := d'.clock = d.clock ∧ d'.tick = d.tick
 
 theorem sameClock_ok : RelOK SameClock :=
   ⟨fun _ => ⟨rfl, rfl⟩, fun _ _ _ h1 h2 => ⟨h2.1.trans h1.1, h2.2.trans h1.2⟩, fun _ _ => ⟨rfl, rfl⟩⟩
 
-/-- the device after exactly one clock read -/
-def tickOnce (d : Dev) : Dev := if d.tick then { d with clock := d.clock + clockStep } else d
+/-- a clock read returns the operation's clock value and changes nothing -/
+theorem run_now (d : Dev) : run Prog.now d = (.ok d.clock, d) := by
+  simp only [Prog.now, run, stepOp]
 
-theorem tickOnce_clock (d : Dev) : (tickOnce d).clock = if d.tick then d.clock + clockStep else d.clock := by
-  unfold tickOnce; split <;> rfl
-
-theorem tickOnce_frame (d : Dev) :
-    (tickOnce d).tick = d.tick ∧ (tickOnce d).fs = d.fs ∧ (tickOnce d).log = d.log ∧ (tickOnce d).img = d.img ∧
-    (tickOnce d).pos = d.pos := by
-  unfold tickOnce; split <;> simp
-
-theorem run_now (d : Dev) : run Prog.now d = (.ok d.clock, tickOnce d) := by
-  simp only [Prog.now, run, stepOp, tickOnce]
-
-theorem run_today (d : Dev) : run Prog.today d = (.ok d.clock, tickOnce d) := by
-  simp only [Prog.today, run, stepOp, tickOnce]
-
-def Op.isClock : Op → Bool
-  | .now => true
-  | .today => true
-  | _ => false
+theorem run_today (d : Dev) : run Prog.today d = (.ok d.clock, d) := by
+  simp only [Prog.today, run, stepOp]
 
 theorem count_clock (d : Dev) (k : CallKind) : (d.count k).clock = d.clock ∧ (d.count k).tick = d.tick := by
   unfold Dev.count; cases k <;> simp
@@ -52,8 +35,8 @@ theorem devCall_sameClock {α} (k : CallKind) (d : Dev) (act : Dev → Except Er
   · have := hact _ _ _ hr
     exact ⟨this.1.trans hc.1, this.2.trans hc.2⟩
 
-theorem stepOp_sameClock (o : Op) (ho : o.isClock = false) (d : Dev) {r d'} (hr : stepOp o d = (r, d')) :
-    SameClock d d' := by
+/-- no primitive step changes the clock -/
+theorem stepOp_sameClock (o : Op) (d : Dev) {r d'} (hr : stepOp o d = (r, d')) : SameClock d d' := by
   cases o with
   | read n =>
     simp only [stepOp] at hr
@@ -71,231 +54,20 @@ theorem stepOp_sameClock (o : Op) (ho : o.isClock = false) (d : Dev) {r d'} (hr 
   | flush =>
     simp only [stepOp] at hr
     exact devCall_sameClock _ _ _ (fun d0 r d1 h => by cases h; exact ⟨rfl, rfl⟩) hr
-  | now => cases ho
-  | today => cases ho
+  | now => simp only [stepOp] at hr; cases hr; exact ⟨rfl, rfl⟩
+  | today => simp only [stepOp] at hr; cases hr; exact ⟨rfl, rfl⟩
   | getFs => simp only [stepOp] at hr; cases hr; exact ⟨rfl, rfl⟩
   | setFs fs => simp only [stepOp] at hr; cases hr; exact ⟨rfl, rfl⟩
 
-/-- no run of `p` reads the clock -/
-def NoClock {α} (p : Prog α) : Prop := Steps SameClock p
+/-- **no program changes the clock**: whatever `p` does — device calls, clock reads, error handling, destructors —
+    the device afterwards has the clock value and mode it started with (instance of the `Steps` framework) -/
+theorem run_sameClock {α} {p : Prog α} {d : Dev} {r : Except Err α} {d' : Dev} (hr : run p d = (r, d')) :
+    SameClock d d' :=
+  (steps_of_ops sameClock_ok (fun o d _ _ h => stepOp_sameClock o d h) p).out d r d' hr
 
-theorem NoClock.out {α} {p : Prog α} (h : NoClock p) {d : Dev} {r d'} (hr : run p d = (r, d')) : SameClock d d' :=
-  Steps.out h d r d' hr
-
-theorem NoClock.pure {α} (a : α) : NoClock (Prog.pure a) := Steps.pure sameClock_ok a
-theorem NoClock.fail {α} (e : Err) : NoClock (Prog.fail (α := α) e) := Steps.fail sameClock_ok e
-theorem NoClock.op (o : Op) (ho : o.isClock = false) : NoClock (Prog.op o) :=
-  ⟨fun d _ _ hr => by simp only [run] at hr; exact stepOp_sameClock o ho d hr⟩
-theorem NoClock.bind {α β} {p : Prog β} {k : β → Prog α} (hp : NoClock p) (hk : ∀ b, NoClock (k b)) :
-    NoClock (Prog.bind p k) := Steps.bind sameClock_ok hp hk
-theorem NoClock.tryCatch {α} {p : Prog α} {h : Err → Prog α} (hp : NoClock p) (hh : ∀ e, NoClock (h e)) :
-    NoClock (Prog.tryCatch p h) := Steps.tryCatch sameClock_ok hp hh
-theorem NoClock.finallyDrop {α} {p : Prog α} {c : Option α → Prog Unit} (hp : NoClock p)
-    (hc : ∀ o, NoClock (c o)) : NoClock (Prog.finallyDrop p c) := Steps.finallyDrop sameClock_ok hp hc
-
-theorem NoClock.opRead (n : Nat) : NoClock (Prog.op (.read n)) := NoClock.op _ rfl
-theorem NoClock.opWrite (bs : List Nat) : NoClock (Prog.op (.write bs)) := NoClock.op _ rfl
-theorem NoClock.opSeek (p : SeekFrom) : NoClock (Prog.op (.seek p)) := NoClock.op _ rfl
-theorem NoClock.opFlush : NoClock (Prog.op .flush) := NoClock.op _ rfl
-theorem NoClock.opGetFs : NoClock (Prog.op .getFs) := NoClock.op _ rfl
-theorem NoClock.opSetFs (fs : FsState) : NoClock (Prog.op (.setFs fs)) := NoClock.op _ rfl
-theorem NoClock.progRead (n : Nat) : NoClock (Prog.read n) := NoClock.op _ rfl
-theorem NoClock.progWrite (bs : List Nat) : NoClock (Prog.write bs) := NoClock.op _ rfl
-theorem NoClock.progSeek (p : SeekFrom) : NoClock (Prog.seek p) := NoClock.op _ rfl
-theorem NoClock.progSeekStart (n : Nat) : NoClock (Prog.seekStart n) := NoClock.op _ rfl
-theorem NoClock.progFlush : NoClock Prog.flush := NoClock.op _ rfl
-theorem NoClock.progGetFs : NoClock Prog.getFs := NoClock.op _ rfl
-theorem NoClock.progSetFs (fs : FsState) : NoClock (Prog.setFs fs) := NoClock.op _ rfl
-theorem NoClock.progModifyFs (f : FsState → FsState) : NoClock (Prog.modifyFs f) :=
-  NoClock.bind (NoClock.op _ rfl) (fun _ => NoClock.op _ rfl)
-
-/-- a stream none of whose methods reads the clock -/
-structure StrmNoClock {σ} (S : Strm σ) : Prop where
-  read : ∀ s n, NoClock (S.read s n)
-  write : ∀ s bs, NoClock (S.write s bs)
-  seek : ∀ s p, NoClock (S.seek s p)
-
-/-- one step of structural descent (same shape as `iosafe_step`) -/
-syntax "noclock_step" ("[" Lean.Parser.Tactic.SolveByElim.arg,* "]")? : tactic
-macro_rules
-  | `(tactic| noclock_step) => `(tactic| noclock_step [])
-  | `(tactic| noclock_step [$ts,*]) => `(tactic| first
-    | with_reducible_and_instances exact NoClock.pure _
-    | with_reducible_and_instances exact NoClock.fail _
-    | with_reducible_and_instances exact NoClock.opRead _
-    | with_reducible_and_instances exact NoClock.opWrite _
-    | with_reducible_and_instances exact NoClock.opSeek _
-    | with_reducible_and_instances exact NoClock.opFlush
-    | with_reducible_and_instances exact NoClock.opGetFs
-    | with_reducible_and_instances exact NoClock.opSetFs _
-    | with_reducible exact NoClock.progRead _
-    | with_reducible exact NoClock.progWrite _
-    | with_reducible exact NoClock.progSeek _
-    | with_reducible exact NoClock.progSeekStart _
-    | with_reducible exact NoClock.progFlush
-    | with_reducible exact NoClock.progGetFs
-    | with_reducible exact NoClock.progSetFs _
-    | with_reducible exact NoClock.progModifyFs _
-    | intro _
-    | with_reducible exact (‹StrmNoClock _›).read _ _
-    | with_reducible exact (‹StrmNoClock _›).write _ _
-    | with_reducible exact (‹StrmNoClock _›).seek _ _
-    | apply_assumption (transparency := .reducible) (exfalso := false) (symm := false) only [*, $ts,*]
-    | with_reducible_and_instances apply NoClock.bind
-    | with_reducible_and_instances apply NoClock.tryCatch
-    | with_reducible_and_instances apply NoClock.finallyDrop
-    | dsimp only
-    | split
-    | rfl)
-
-syntax "noclock" ("[" Lean.Parser.Tactic.SolveByElim.arg,* "]")? : tactic
-macro_rules
-  | `(tactic| noclock) => `(tactic| repeat noclock_step [])
-  | `(tactic| noclock [$ts,*]) => `(tactic| repeat noclock_step [$ts,*])
-
-/-! ### `Io.lean` -/
-
-theorem devStrm_noClock : StrmNoClock devStrm := by
-  refine ⟨?_, ?_, ?_⟩ <;> intros <;> simp only [devStrm] <;> noclock
-
-section generic
-variable {σ : Type} (S : Strm σ) (hS : StrmNoClock S)
-include hS
-
-theorem readExactLoop_noClock : ∀ fuel s n acc, NoClock (readExactLoop S fuel s n acc) := by
-  intro fuel
-  induction fuel with
-  | zero => intros; unfold readExactLoop; noclock
-  | succ k ih => intros; unfold readExactLoop; noclock
-
-theorem readExact_noClock (s n) : NoClock (readExact S s n) := readExactLoop_noClock S hS _ _ _ _
-
-theorem writeAllLoop_noClock : ∀ fuel s bs, NoClock (writeAllLoop S fuel s bs) := by
-  intro fuel
-  induction fuel with
-  | zero => intros; unfold writeAllLoop; noclock
-  | succ k ih => intros; unfold writeAllLoop; noclock
-
-theorem writeAll_noClock (s bs) : NoClock (writeAll S s bs) := writeAllLoop_noClock S hS _ _ _
-
-theorem readU8_noClock (s) : NoClock (readU8 S s) := by unfold readU8; noclock [readExact_noClock]
-theorem readU16_noClock (s) : NoClock (readU16 S s) := by unfold readU16; noclock [readExact_noClock]
-theorem readU32_noClock (s) : NoClock (readU32 S s) := by unfold readU32; noclock [readExact_noClock]
-theorem writeU8_noClock (s v) : NoClock (writeU8 S s v) := writeAll_noClock S hS _ _
-theorem writeU16_noClock (s v) : NoClock (writeU16 S s v) := writeAll_noClock S hS _ _
-theorem writeU32_noClock (s v) : NoClock (writeU32 S s v) := writeAll_noClock S hS _ _
-
-theorem writeChunks_noClock : ∀ cs s, NoClock (writeChunks S s cs) := by
-  intro cs
-  induction cs with
-  | nil => intros; unfold writeChunks; noclock
-  | cons c rest ih => intros; unfold writeChunks; noclock [writeAll_noClock]
-
-theorem writeZerosLoop_noClock : ∀ fuel s len, NoClock (writeZerosLoop S fuel s len) := by
-  intro fuel
-  induction fuel with
-  | zero => intros; unfold writeZerosLoop; noclock
-  | succ k ih => intros; unfold writeZerosLoop; noclock [writeAll_noClock]
-
-theorem writeZeros_noClock (s len) : NoClock (writeZeros S s len) := writeZerosLoop_noClock S hS _ _ _
-
-end generic
-
-/-! ### `Slice.lean` -/
-
-theorem setDirtyFlag_noClock (b : Bool) : NoClock (setDirtyFlag b) := by
-  unfold setDirtyFlag; noclock [writeU8_noClock, devStrm_noClock]
-
-theorem adapterStrm_noClock : StrmNoClock adapterStrm := by
-  refine ⟨?_, ?_, ?_⟩ <;> intros <;> simp only [adapterStrm] <;> noclock [setDirtyFlag_noClock]
-
-theorem DiskSlice.inner_noClock (s : DiskSlice) : StrmNoClock s.inner := by
-  unfold DiskSlice.inner; split
-  · exact adapterStrm_noClock
-  · exact devStrm_noClock
-
-theorem DiskSlice.read_noClock (s : DiskSlice) (n : Nat) : NoClock (s.read n) := by
-  have := s.inner_noClock
-  unfold DiskSlice.read; noclock
-
-theorem DiskSlice.writeMirrors_noClock (s : DiskSlice) (off : Nat) (bs : List Nat) :
-    ∀ k i, NoClock (s.writeMirrors off bs k i) := by
-  have := s.inner_noClock
-  intro k
-  induction k with
-  | zero => intros; unfold DiskSlice.writeMirrors; noclock
-  | succ k ih => intros; unfold DiskSlice.writeMirrors; noclock [writeAll_noClock]
-
-theorem DiskSlice.write_noClock (s : DiskSlice) (bs : List Nat) : NoClock (s.write bs) := by
-  unfold DiskSlice.write; noclock [DiskSlice.writeMirrors_noClock]
-
-theorem DiskSlice.seek_noClock (s : DiskSlice) (p : SeekFrom) : NoClock (s.seek p) := by
-  unfold DiskSlice.seek; noclock
-
-theorem DiskSlice.strm_noClock : StrmNoClock DiskSlice.strm :=
-  ⟨DiskSlice.read_noClock, DiskSlice.write_noClock, DiskSlice.seek_noClock⟩
-
-/-! ### `Table.lean` -/
-
-namespace Table
-section generic
-variable {σ : Type} (S : Strm σ) (hS : StrmNoClock S)
-include hS
-
-theorem getRaw_noClock (ft s c) : NoClock (getRaw S ft s c) := by
-  unfold getRaw; noclock [readU16_noClock, readU32_noClock]
-
-theorem get_noClock (ft s c) : NoClock (get S ft s c) := by
-  unfold get; noclock [getRaw_noClock]
-
-theorem set_noClock (ft s c v) : NoClock (set S ft s c v) := by
-  unfold set; noclock [getRaw_noClock, readU16_noClock, writeU16_noClock, writeU32_noClock]
-
-theorem findFree12Loop_noClock : ∀ fuel s c endC packed, NoClock (findFree12Loop S fuel s c endC packed) := by
-  intro fuel
-  induction fuel with
-  | zero => intros; unfold findFree12Loop; noclock
-  | succ k ih => intros; unfold findFree12Loop; noclock [readU16_noClock, readU8_noClock]
-
-theorem findFreeLoop_noClock (ft) : ∀ fuel s c endC, NoClock (findFreeLoop S ft fuel s c endC) := by
-  intro fuel
-  induction fuel with
-  | zero => intros; unfold findFreeLoop; noclock
-  | succ k ih => intros; unfold findFreeLoop; noclock [readU16_noClock, readU32_noClock]
-
-theorem findFree_noClock (ft s start endC) : NoClock (findFree S ft s start endC) := by
-  unfold findFree; noclock [readU16_noClock, findFree12Loop_noClock, findFreeLoop_noClock]
-
-theorem allocCluster_noClock (ft s prev hint total) : NoClock (allocCluster S ft s prev hint total) := by
-  unfold allocCluster; noclock [findFree_noClock, set_noClock]
-
-theorem CIter.next_noClock (ft) (it : CIter σ) : NoClock (CIter.next S ft it) := by
-  unfold CIter.next; noclock [get_noClock]
-
-end generic
-end Table
-
-/-! ### cluster helpers of `File.lean` -/
-
-theorem offsetFromClusterP_noClock (fs c) : NoClock (offsetFromClusterP fs c) := by
-  unfold offsetFromClusterP; noclock
-
-theorem nextCluster_noClock (c) : NoClock (nextCluster c) := by
-  unfold nextCluster; noclock [Table.CIter.next_noClock, DiskSlice.strm_noClock]
-
-theorem allocClusterFs_noClock (prev zero) : NoClock (allocClusterFs prev zero) := by
-  unfold allocClusterFs
-  noclock [Table.allocCluster_noClock, DiskSlice.strm_noClock, offsetFromClusterP_noClock, writeZeros_noClock,
-    devStrm_noClock]
-
-theorem FileH.boundaryCluster_noClock (f : FileH) : NoClock f.boundaryCluster := by
-  unfold FileH.boundaryCluster; noclock [nextCluster_noClock]
-
-/-- `DirEntryEditor::flush` / `File::flush` write and flush, they never read the clock -/
-theorem FileH.flushDirEntry_noClock (f : FileH) : NoClock f.flushDirEntry := by
-  unfold FileH.flushDirEntry; noclock [writeChunks_noClock, devStrm_noClock]
-
-theorem FileH.flush_noClock (f : FileH) : NoClock f.flush := by
-  unfold FileH.flush; noclock [FileH.flushDirEntry_noClock]
+/-- the clock advances exactly at the start of an API operation, by one step in tick mode, not at all otherwise -/
+theorem resetOp_clock (d : Dev) (failAt : Option Nat) :
+    (d.resetOp failAt).clock = (if d.tick then d.clock + Dev.clockStep else d.clock) ∧ (d.resetOp failAt).tick = d.tick := by
+  unfold Dev.resetOp; exact ⟨rfl, rfl⟩
 
 end FatVerif
